@@ -506,3 +506,29 @@ func c19r6(r *R) {
 		}
 	}
 }
+
+func init() {
+	register("C01", "R10", 1, "no content coding is solicited on the client's behalf: the transport forwarder builds has DisableCompression set - otherwise net/http adds `Accept-Encoding: gzip` to every request that carries none", c01r10)
+	register("C02", "R7", 1, "responses are relayed as framed by the origin: the transport's transparent decompression is off (DisableCompression) - with it on, a gzip reply that had a Content-Length comes back with Content-Encoding and Content-Length stripped and length unknown, and is written to a keep-alive client without any delimiter", c01r10)
+}
+
+func c01r10(r *R) {
+	nt := r.fn(".", "NewHTTPTransport")
+	ps, complete := enumPaths(nt, 512, 1)
+	if !complete {
+		r.undecided("NewHTTPTransport#paths", nt.Pos(), "too many paths")
+		return
+	}
+	n := 0
+	for _, p := range ps {
+		if len(p.Ret) != 2 || p.Ret[1] != "nil" {
+			continue
+		}
+		n++
+		v := p.Mem[p.Ret[0]+".DisableCompression"]
+		r.check(v == "true", fmt.Sprintf("NewHTTPTransport#no-transparent-gzip@%d", n), p.pos(), "DisableCompression: true", "the transport is built with DisableCompression="+map[bool]string{true: "unset", false: v}[v == ""]+": net/http then asks origins for gzip on its own and hands back a decompressed body of unknown length without Content-Length")
+	}
+	if n == 0 {
+		r.bad("NewHTTPTransport#no-transparent-gzip", nt.Pos(), "no successful return found")
+	}
+}
